@@ -31,7 +31,7 @@ RelativeVigorIndex_Init(cfg, c) ==
     IN  [pc |-> c.c,
          w1 |-> MAInit("swma", cfg.period2, FxZero), a1 |-> MAInit("sma", cfg.period1, FxZero),
          w2 |-> MAInit("swma", cfg.period2, hl),     a2 |-> MAInit("sma", cfg.period1, hl),
-         m  |-> MInit(cfg.signal, FxZero), e |-> RelativeVigorIndex_EInit(cfg.signal)]
+         m  |-> MInit(cfg.signal, FxZero), e |-> RelativeVigorIndex_EInit(cfg.signal), lost |-> FALSE]
 RelativeVigorIndex_Step(cfg, st, c, P, V) ==
     LET w1 == MAStep("swma", cfg.period2, st.w1, FxSub(c.c, st.pc))
         a1 == MAStep("sma", cfg.period1, st.a1, w1.out)
@@ -43,8 +43,11 @@ RelativeVigorIndex_Step(cfg, st, c, P, V) ==
         q  == IF FxIsZero(a2.out) THEN FxFromInt(1000000000) ELSE FxMul(FxAdd(FxOne, FxAbs(rvi)), FxDiv(S2, a2.out))
         m  == MStep(cfg.signal, st.m, rvi)
         e  == RelativeVigorIndex_EStep(cfg.signal, st.e, q)
-    IN  [st |-> [pc |-> c.c, w1 |-> w1.st, a1 |-> a1.st, w2 |-> w2.st, a2 |-> a2.st, m |-> m.st, e |-> e.st],
-         vals |-> <<Gx(a1.out, a2.out, S2, S2, FxZero), Ex(m.out, FxMulInt(e.out, 2))>>]
+        \* once the averaged range is exactly 0 (a stretch of flat candles longer than both windows) the code's rvi is a quotient
+        \* of rounding residues; it is fed to the signal line, which is not determined from then on
+        lost == st.lost \/ FxIsZero(a2.out)
+    IN  [st |-> [pc |-> c.c, w1 |-> w1.st, a1 |-> a1.st, w2 |-> w2.st, a2 |-> a2.st, m |-> m.st, e |-> e.st, lost |-> lost],
+         vals |-> <<Gx(a1.out, a2.out, S2, S2, FxZero), IF lost THEN AnyVal ELSE Ex(m.out, FxMulInt(e.out, 2))>>]
 
 \* logged value a > zone (exactly: zone is the configured float; against 0.0 the sign is taken from the ordering key)
 RelativeVigorIndex_Above(a, z) == IF FxIsZero(z) THEN FGt(a, ZeroV) ELSE FxGt(a.x, z)
